@@ -126,6 +126,7 @@ def lexrun(seed, tier, log=print, extra_modes=('p',)):
         lines.append('Q CERT')
         lines.append('Q PASSES')
         lines.append('Q FROMDFA')
+        lines.append('Q UTF8SEQ')
         lines.append('Q WF')
         for b in inputs[i]:
             lines.append('Q LEX n ' + P.hexs(b))
